@@ -261,7 +261,17 @@ class Gen:
                         ft = {"k": "union", "br": [{"k": "prim", "name": "null"}, x]}
                         d["fields"].append({"name": fn, "type": ft, "hasdef": True, "default": None, "aliases": self.mk_aliases()})
                         continue
-                ft = self.typ(depth - 1, tns)
+                if self.defaults and depth > 0 and r.random() < 0.06:
+                    # nullable with a non-null default: [X, "null"], "default": <an X> (an explicit None is then a value of its own)
+                    x = self.typ(depth - 1, tns, under_union=True)
+                    ok, dv = self.default_for(x) if x["k"] != "union" else (False, None)
+                    if ok and dv is not None:
+                        ft = {"k": "union", "br": [x, {"k": "prim", "name": "null"}]}
+                        d["fields"].append({"name": fn, "type": ft, "hasdef": True, "default": dv, "aliases": self.mk_aliases()})
+                        continue
+                    ft = x
+                else:
+                    ft = self.typ(depth - 1, tns)
                 f = {"name": fn, "type": ft, "hasdef": False, "default": None, "aliases": self.mk_aliases()}
                 if self.defaults and r.random() < 0.35:
                     ok, dv = self.default_for(ft)
@@ -735,8 +745,8 @@ class Gen:
             return r.random() < 0.5
         if n == "int":
             x = r.random()
-            if x < 0.12:
-                return r.choice([2 ** 31 - 1, -2 ** 31])            # the extremes are not symmetric
+            if x < 0.2:
+                return r.choice([2 ** 31 - 1, -2 ** 31, -2 ** 31])   # the extremes are not symmetric
             return r.choice(INT_POOL) if x < 0.6 else r.randint(-2 ** 31, 2 ** 31 - 1)
         if n == "long":
             x = r.random()
